@@ -68,3 +68,51 @@ def drain_detached(stack, limit=1000):
         cb()
         n += 1
     return n
+
+
+class LoopBudgetExceeded(Exception):
+    pass
+
+
+class loop_budget(object):
+    """Deterministic guard against a loop that never ends inside the code under test: counts the backward jumps executed in
+    the given functions (sys.monitoring JUMP events, local to their code objects) and raises LoopBudgetExceeded inside the
+    looping code once the budget is used up.  No wall clock is involved, so the verdict is reproducible."""
+
+    def __init__(self, functions, limit):
+        self.codes = [getattr(f, "__code__", f) for f in functions]
+        self.limit = limit
+        self.count = 0
+
+    def __enter__(self):
+        import sys
+        mon = getattr(sys, "monitoring", None)
+        self.mon = mon
+        if mon is None:
+            return self
+        self.tool = mon.DEBUGGER_ID
+        try:
+            mon.use_tool_id(self.tool, "verif-loop-budget")
+        except ValueError:
+            self.mon = None
+            return self
+
+        def on_jump(code, src, dst):
+            if dst < src:
+                self.count += 1
+                if self.count > self.limit:
+                    raise LoopBudgetExceeded("more than %d loop iterations" % self.limit)
+        mon.register_callback(self.tool, mon.events.JUMP, on_jump)
+        for c in self.codes:
+            mon.set_local_events(self.tool, c, mon.events.JUMP)
+        return self
+
+    def __exit__(self, *a):
+        mon = self.mon
+        if mon is None:
+            return False
+        for c in self.codes:
+            mon.set_local_events(self.tool, c, 0)
+        mon.register_callback(self.tool, mon.events.JUMP, None)
+        mon.free_tool_id(self.tool)
+        return False
